@@ -209,6 +209,6 @@ def replay_snippet(t, dk, sc, seed, out_mode, harness_dir, units=UNITS, what=Non
         f"call = t.instantiate({dk!r}, {sc!r}, {seed!r})\n"
         "print('call:', t.func, '(', call.describe(), ')  status:', st, detail)\n"
         f"bad = {what!r}\n"
-        "hit = (st == 'numpy-raises' and bad == 'numpy-raises') or (st == 'differ' and (bad is None or any(d[0] == bad for d in detail)))\n"
+        "hit = (st == 'numpy-raises' and bad in ('numpy-raises', 'int-out-retyped')) or (st == 'differ' and (bad is None or any(d[0] == bad for d in detail)))\n"
         "assert not hit, (st, detail)\n"
     )
